@@ -585,7 +585,7 @@ def evaluate(run, exe, model, named, env, label):
             continue
         viol = mutex_held_return(p, r) + (oracle(p, r) or monitor(p, r))
         qv, qs = queue_counter(p, r)
-        viol = viol or qv
+        viol = viol + qv
         if qs["qq"]:
             run.dist("queue-size-queries-checked-against-ENQ-DEQ", qs["qq"])
         if qs["ovf"]:
